@@ -45,6 +45,23 @@ pub fn call(case: &Value, out: &mut Outcome) {
                 Err(m) => out.violate("slots-panic", m, case.clone()),
             }
         }
+        "pack-verdict" => {
+            // a packing detector on a rendered container: must / must not report the container's line, nothing else
+            let (src, det) = (case["source"].as_str().unwrap_or(""), case["detector"].as_str().unwrap_or(""));
+            let line = case["line"].as_i64().unwrap_or(-1) as i32;
+            let verdict = case["verdict"].as_str().unwrap_or("free");
+            match by_name(det).map(|d| d.run(src)) {
+                Some(Ok(got)) => {
+                    let reported = got.contains(&line);
+                    let stray = got.iter().any(|l| *l != line);
+                    if stray || (verdict == "must" && !reported) || (verdict == "mustnot" && reported) {
+                        out.violate("pack-verdict", format!("{} reports {:?}; container on line {}, verdict {}", det, got, line, verdict), case.clone());
+                    }
+                }
+                Some(Err(m)) => out.violate("pack-panic", m, case.clone()),
+                None => out.tool_error("replay: unknown detector".into()),
+            }
+        }
         "get_line_number" => {
             let text = case["text"].as_str().unwrap_or("").to_string();
             let off = case["offset"].as_u64().unwrap_or(0) as usize;
